@@ -2,6 +2,7 @@ package main
 
 import (
 	"fmt"
+	"regexp"
 	"os"
 	"path/filepath"
 	"strconv"
@@ -139,6 +140,8 @@ type Contract struct {
 	Lemmas     []Ensures // assert-style facts to prove at entry (rare)
 	Locks      []GuardedBy
 	NoPanic    bool // callers may rely on: does not panic when requires hold (informational)
+	Pattern    bool // a `funcs <regexp>` block
+	Lenient    map[*Sx]bool // clauses coming from a pattern block: dropped for functions where a name does not resolve
 	Opts       map[string]string
 }
 
@@ -160,7 +163,24 @@ type SpecParam struct {
 	Sort string
 }
 
+type Axiom struct {
+	Name string
+	Pkg  string // directory-relative package the axiom's names resolve in
+	Expr *Sx
+}
+
+func pkgOfFile(path string) string {
+	d := filepath.Base(filepath.Dir(path))
+	return d
+}
+
 type Contracts struct {
+	IfacePatterns []*Contract
+	Sigs          map[string]*Contract // function-type string -> family contract for calls through values of that type
+	FieldAssume map[string]*Sx // "pkg.Type.field" -> assumed fact about every value loaded from that field (name: value)
+	Axioms []Axiom
+	Patterns []*Contract // `//@ funcs <regexp>` blocks: clauses applied to every matching function
+	merged   map[string]*Contract
 	ByFunc  map[string]*Contract
 	Iface   map[string]*Contract // "interpreter.Debugger.BeforeStep"
 	Specs   map[string]*SpecFn
@@ -170,7 +190,7 @@ type Contracts struct {
 }
 
 func newContracts() *Contracts {
-	return &Contracts{ByFunc: map[string]*Contract{}, Iface: map[string]*Contract{}, Specs: map[string]*SpecFn{}}
+	return &Contracts{ByFunc: map[string]*Contract{}, Iface: map[string]*Contract{}, Specs: map[string]*SpecFn{}, Sigs: map[string]*Contract{}}
 }
 
 // loadContracts reads every contracts_verif.go under repo (falling back to the mirror in /verif/contracts).
@@ -248,6 +268,19 @@ func (cs *Contracts) parseFile(path, text string) error {
 			}
 			cs.ByFunc[rest] = cur
 			continue
+		case "funcs":
+			cur = &Contract{Func: rest, File: path, Loops: map[int]*LoopSpec{}, Opts: map[string]string{}, Pattern: true}
+			cs.Patterns = append(cs.Patterns, cur)
+			continue
+		case "ifaces":
+			cur = &Contract{Func: rest, File: path, Loops: map[int]*LoopSpec{}, Opts: map[string]string{}, Pattern: true}
+			cs.IfacePatterns = append(cs.IfacePatterns, cur)
+			continue
+		case "sig":
+			nm, ty := splitWord(rest)
+			cur = &Contract{Func: nm, File: path, Loops: map[int]*LoopSpec{}, Opts: map[string]string{}}
+			cs.Sigs[strings.Trim(ty, "\"")] = cur
+			continue
 		case "iface":
 			cur = &Contract{Func: rest, File: path, Loops: map[int]*LoopSpec{}, Opts: map[string]string{}}
 			cs.Iface[rest] = cur
@@ -259,6 +292,25 @@ func (cs *Contracts) parseFile(path, text string) error {
 			}
 			cs.Specs[sf.Name] = sf
 			cur = nil
+			continue
+		case "axiom":
+			nm, ex := splitWord(rest)
+			es, err := parseSxAll(ex)
+			if err != nil || len(es) != 1 {
+				return fmt.Errorf("%s: bad axiom", where)
+			}
+			cs.Axioms = append(cs.Axioms, Axiom{Name: nm, Pkg: pkgOfFile(path), Expr: es[0]})
+			continue
+		case "field-assume":
+			nm, ex := splitWord(rest)
+			es, err := parseSxAll(ex)
+			if err != nil || len(es) != 1 {
+				return fmt.Errorf("%s: bad field-assume", where)
+			}
+			if cs.FieldAssume == nil {
+				cs.FieldAssume = map[string]*Sx{}
+			}
+			cs.FieldAssume[nm] = es[0]
 			continue
 		case "smt":
 			cs.Raw = append(cs.Raw, rest)
@@ -422,4 +474,80 @@ func parseSpecDecl(rest string) (*SpecFn, error) {
 		sf.Reads = strings.Fields(strings.TrimPrefix(tail, "reads"))
 	}
 	return sf, nil
+}
+
+// For returns the effective contract of a function: its own block merged with every matching pattern block.
+// Pattern clauses are lenient: a clause that mentions a name the function does not have is dropped for that function.
+func (cs *Contracts) For(name string) *Contract {
+	if cs.merged == nil {
+		cs.merged = map[string]*Contract{}
+	}
+	if m, ok := cs.merged[name]; ok {
+		return m
+	}
+	own := cs.ByFunc[name]
+	var pats []*Contract
+	for _, p := range cs.Patterns {
+		if regexp.MustCompile(p.Func).MatchString(name) {
+			pats = append(pats, p)
+		}
+	}
+	if len(pats) == 0 {
+		cs.merged[name] = own
+		return own
+	}
+	m := &Contract{Func: name, Loops: map[int]*LoopSpec{}, Opts: map[string]string{}, Lenient: map[*Sx]bool{}}
+	for _, p := range pats {
+		if own != nil && own.Opts["nopattern"] != "" {
+			break
+		}
+		for _, r := range p.Requires {
+			m.Requires = append(m.Requires, r)
+			m.Lenient[r] = true
+		}
+		for _, en := range p.Ensures {
+			m.Ensures = append(m.Ensures, en)
+			m.Lenient[en.Expr] = true
+		}
+		for k, v := range p.Opts {
+			m.Opts[k] = v
+		}
+		if p.Overflow != "" {
+			m.Overflow = p.Overflow
+		}
+		if p.Bytes != "" {
+			m.Bytes = p.Bytes
+		}
+	}
+	if own != nil {
+		m.File = own.File
+		m.Requires = append(m.Requires, own.Requires...)
+		m.Ensures = append(m.Ensures, own.Ensures...)
+		m.Assigns, m.HasAssigns, m.Fresh, m.Pure, m.Trusted = own.Assigns, own.HasAssigns, own.Fresh, own.Pure, own.Trusted
+		if own.Overflow != "" {
+			m.Overflow = own.Overflow
+		}
+		if own.Bytes != "" {
+			m.Bytes = own.Bytes
+		}
+		m.Loops = own.Loops
+		for k, v := range own.Opts {
+			m.Opts[k] = v
+		}
+	}
+	cs.merged[name] = m
+	return m
+}
+
+// IfaceFor: contract of an interface method ("pkg.Iface.Method"), exact block or first matching `ifaces` pattern.
+func (cs *Contracts) IfaceFor(key string) *Contract {
+	if c := cs.Iface[key]; c != nil {
+		return c
+	}
+	for _, p := range cs.IfacePatterns {
+		if regexp.MustCompile(p.Func).MatchString(key) {
+			return p
+		}
+	}
+	return nil
 }
